@@ -184,6 +184,28 @@ PROPS["C13"] = dict(
     level_note="the ten-slot bound is taken from the statement; IPv6 echo replies are produced inline and are simply all required",
 )
 
+PROPS["C03"] = dict(
+    engine="netsim", level="exploration",
+    quick=dict(runs=32000, workers=16),
+    thorough=dict(budget_s=600, workers=16),
+    rule="one evaluation = one seeded history of 3-25 independent episodes against one real stack with a listener on port 80 (normal or SYN-cookie mode, "
+         "IPv4/IPv6): passive opens (peer ISS uniform and wrap-adjacent; SYN options drawn from a grammar of MSS/WS/TS/SACK-permitted/NOP/EOL/unknown "
+         "kinds/invalid lengths; SYN retransmission; final ACK correct or wrong by +-1..3, small, +-2^31, uniform; data on the ACK), active opens with "
+         "the stack's own ISS pinned through the pkg/rand seam (SYN-ACK with right/wrong ack, reset with right/wrong ack, simultaneous open), segments "
+         "of every flag combination for ports with no socket, and non-handshake segments at the listener; non-trivial = at least one correct handshake "
+         "and one wrong-ACK or stray episode; distinct = distinct event-log hash",
+    expected_probes=["correct_handshake", "wrong_final_ack", "active_correct", "active_wrong_ack", "active_refused", "simultaneous_open", "stray_segment", "stray_reset", "syn_retransmitted"],
+    real=NET_REAL, stubs=NET_STUBS + PEER_STUB, assumptions=NET_ASSUME + [
+        "in cookie mode only wrong acknowledgement numbers whose invalidity does not depend on the cookie secret are generated (offsets 4..1000 and +-2^31); "
+        "a forged cookie is accepted with probability 2^-28 by construction of SYN cookies and is not what this check looks for"],
+    hang_is_violation=True,
+    level_text="seeded search over handshake histories; Accept/Connect may succeed only after an ACK/SYN-ACK acknowledging exactly ISS+1, a wrong one is "
+               "answered (outside cookie mode) by exactly one reset whose sequence number is that acknowledgement number, a segment for a port with no "
+               "socket draws exactly one reset acknowledging it (sequence 0 without ACK), a reset is never answered; evidence, not proof",
+    level_note="'a correct handshake does yield a connection' is asserted only for loss-free handshakes whose third segment is a bare ACK (a data-bearing "
+               "third segment may be dropped and retransmitted: the statement only restricts when a connection may be handed out)",
+)
+
 PENDING = "check not built yet (work in progress; will be claimed once its simulation exists)"
 NOT_APPLICABLE = {
     "C15": "pure functions of their input (header codecs, RFC 1071 checksum): no schedule, clock, fault, I/O or second party for a simulator to control; "
